@@ -5,19 +5,19 @@ module holding the property's theorems, and the wording that goes into the evide
 PROPS = {
     "C01": dict(fams=[("s1", 1500, 60000), ("sm", 800, 30000), ("cs", 900, 30000), ("he", 500, 20000)],
                 real=[("chain", 140, 6000)]),
-    "C02": dict(fams=[("v1", 2000, 100000), ("vm", 1000, 50000), ("s1", 800, 40000), ("sm", 500, 20000)]),
-    "C03": dict(fams=[("v1", 2500, 100000), ("vm", 1000, 50000), ("cs", 600, 30000)],
-                real=[("tamper", 120, 6000)]),
+    "C02": dict(fams=[("tbsgrid", 0, 0), ("v1", 2000, 100000), ("vm", 1000, 50000), ("s1", 800, 40000), ("sm", 500, 20000)]),
+    "C03": dict(fams=[("tbsgrid", 0, 0), ("v1", 2500, 100000), ("vm", 1000, 50000), ("cs", 600, 30000), ("ecgrid", 0, 0)],
+                real=[("tamper", 200, 8000)]),
     "C04": dict(fams=[("alggrid", 0, 0), ("s1", 300, 20000), ("he", 200, 5000)]),
     "C05": dict(fams=[("dec", 6000, 600000), ("dechdr", 2000, 100000), ("hdrgrid", 0, 0)]),
     "C06": dict(fams=[("dec", 2500, 300000), ("use", 2500, 200000), ("keygrid", 600, 60000), ("hist", 400, 30000),
                       ("dechdr", 800, 50000), ("hev", 400, 20000)]),
-    "C07": dict(fams=[("v1", 3000, 200000), ("vm", 1500, 100000), ("dec", 1500, 100000), ("reenc", 500, 20000)],
+    "C07": dict(fams=[("tbsgrid", 0, 0), ("v1", 3000, 200000), ("vm", 1500, 100000), ("dec", 1500, 100000), ("reenc", 500, 20000)],
                 real=[("foreign", 100, 5000)]),
     "C08": dict(fams=[("enc", 3000, 300000), ("s1", 800, 40000), ("sm", 400, 20000), ("cs", 400, 20000),
                       ("keyrt", 200, 3000), ("he", 300, 10000)]),
-    "C09": dict(fams=[("reenc", 4000, 400000)]),
-    "C10": dict(fams=[("cs", 4000, 300000)]),
+    "C09": dict(fams=[("tbsgrid", 0, 0), ("reenc", 4000, 400000)]),
+    "C10": dict(fams=[("tbsgrid", 0, 0), ("cs", 4000, 300000)]),
     "C11": dict(fams=[("signgrid", 0, 0), ("sm", 600, 60000), ("vm", 600, 60000)]),
     "C12": dict(fams=[("he", 3000, 200000)]),
     "C13": dict(fams=[("hdrgrid", 0, 0), ("enc", 1000, 100000), ("dechdr", 1000, 100000)]),
@@ -51,10 +51,12 @@ ASSUMPTIONS = [
 
 # additional theorem modules per property (namespace Cxx), beyond CoseProofs.Props.Cxx
 DEEP = {
+    "C01": ["CoseProofs.Deep.Chain"],
     "C02": ["CoseProofs.Deep.Tbs"],
     "C03": ["CoseProofs.Deep.Tbs"],
     "C04": ["CoseProofs.FactsTie"],
     "C05": ["CoseProofs.Deep.Reencode"],
+    "C06": ["CoseProofs.Deep.NoPanic"],
     "C08": ["CoseProofs.Deep.Headers"],
     "C09": ["CoseProofs.Deep.Reencode"],
     "C10": ["CoseProofs.Deep.Tbs", "CoseProofs.FactsTie"],
